@@ -38,6 +38,7 @@ class Config(object):
         horizon=60,
         max_states=200000,
         past_terminal=True,  # keep completing in-flight actions after a terminal status
+        snap_graph=False,  # snapshot the composed graph with every state (C05)
     )
 
     def __init__(self, **kw):
@@ -67,6 +68,8 @@ def gen_moves(sim, cfg):
     if h["broken"]:
         return []
     if not h["started"]:
+        if cfg.crash and not h.get("crashed_before_start"):
+            return [(["start"], 0, None), (["crash"], 1, None)]
         return [(["start"], 0, None)]
     if h["steps"] >= cfg.horizon:
         return []
@@ -218,6 +221,7 @@ def terminal_observation(sim):
 def explore(scn, cfg, monitor_classes, deadline=None, collect_samples=2):
     """Explore one scenario. Returns (stats, violations)."""
     t0 = time.time()
+    Sim.SNAP_GRAPH = bool(cfg.snap_graph)
     monitors = [m(scn, cfg) for m in monitor_classes]
     sim0 = Sim(scn)
     sim0.budget = cfg.initial_budget()
@@ -402,6 +406,7 @@ def run_path(scn, cfg, monitor_classes, moves, prior=None, monitors=None):
     Used to confirm a violation found by the search before it is reported and
     by ``check --replay``. ``prior``: histories replayed first with the same monitor
     instances (properties judged on a set of executions, e.g. C08)."""
+    Sim.SNAP_GRAPH = bool(cfg.snap_graph)
     if monitors is None:
         monitors = [m(scn, cfg) for m in monitor_classes]
     for ph in prior or []:
